@@ -47,6 +47,11 @@ def scenarios(tier, seed=0):
             for irr in (["none"] if tier == "quick" else ["none", "smt"]):
                 spec = A.catalogue_spec(name, soil="SandyLoam", gw=gw, dz="deep30", word="warm", irr=irr)
                 yield {"kind": "spec", "spec": spec, "label": ["gw", name, gw, irr]}
+    # a table just above the maximum rooting depth and below the centre of the deepest compartment (default list deepened for the crop /
+    # a list with thick bottom compartments), crop watered well enough to root that deep
+    for name, gw, dz in (("Maize", "2.27", "d12"), ("Maize", "2.15", "thickbottom"), ("Wheat", "1.47", "d12"), ("Cotton", "2.15", "thickbottom"), ("Maize", "1.5", "thickbottom")):
+        spec = A.catalogue_spec(name, soil="SandyLoam", gw=gw, dz=dz, word="warm", irr="smt")
+        yield {"kind": "spec", "spec": spec, "label": ["table-near-zmax", name, gw, dz]}
     # off-season rows (simulated fallow after harvest and before planting)
     for name in sub:
         spec = A.catalogue_spec(name, soil="SandyLoam", word="warm", off=True, start="2001/04/20", end="2001/12/30")
